@@ -5,6 +5,8 @@
 //!   rd <hexmsg> <defs> <type>   decode the message at ONE expected type under the given definitions -> ok | err
 //!   rt <kind> <value>  native Encode!/Decode! round trip of one scalar -> "ok <message hex> <value read back>"
 //!   rds <hexmsg> <defs> <type>  as rd, with short error messages (the wasm32 default): -> ok | err   (a panic prints `panic`)
+//!   deep <depth> <stack KiB>   a function reference whose result type is a <depth>-deep opt chain, decoded at an equally deep
+//!                            expected type on a thread with that stack -> ok | err | panic
 //!   st <scenario>   subtype memo scenario (see subtype_case) -> per query "<shared><fresh>"
 //!   dn <hex>        Nat::decode           -> "ok <dec> <consumed>" | "err"
 //!   di <hex>        Int::decode           -> "ok <dec> <consumed>" | "err"
@@ -154,6 +156,7 @@ fn main() {
             // given order on ONE fresh thread and prints each message; "dv" prints derived field orders
             "rt" => roundtrip_case(&p[1], &p[2]),
             "st" => subtype_case(&p[1]),
+            "deep" => deep_case(p[1].parse().unwrap(), p[2].parse().unwrap()),
             "rd" => refdecode_case(&p[1], &p[2], &p[3]),
             "rds" => refdecode_short(&p[1], &p[2], &p[3]),
             "h" => history_case(&p[1]),
@@ -428,5 +431,36 @@ fn refdecode_short(hexmsg: &str, defs: &str, ty: &str) -> String {
     match candid::IDLArgs::from_bytes_with_types_with_config(&bytes, &env, &[t], &config) {
         Ok(_) => "ok".to_string(),
         Err(_) => "err".to_string(),
+    }
+}
+
+// ---------------------------------------------------------------- deep reference types near the end of the stack
+fn deep_case(depth: usize, stack_kb: usize) -> String {
+    use candid::types::{Function, Type, TypeEnv, TypeInner};
+    fn leb(mut n: u64) -> Vec<u8> { let mut o = vec![]; loop { let b = (n & 0x7f) as u8; n >>= 7; if n == 0 { o.push(b); break } o.push(b | 0x80) } o }
+    fn sleb(n: i64) -> Vec<u8> { let mut o = vec![]; let mut v = n; loop { let b = (v & 0x7f) as u8; v >>= 7; if (v == 0 && b & 0x40 == 0) || (v == -1 && b & 0x40 != 0) { o.push(b); break } o.push(b | 0x80) } o }
+    let h = std::thread::Builder::new().stack_size(stack_kb * 1024).spawn(move || {
+        // table: 0: func () -> (1) ; i (1..depth): opt (i+1) ; depth: opt nat ; value: a function reference
+        let mut msg = b"DIDL".to_vec();
+        msg.extend(leb(depth as u64 + 1));
+        msg.extend([0x6a, 0x00, 0x01, 0x01, 0x00]);
+        for i in 1..=depth {
+            msg.push(0x6e);
+            if i < depth { msg.extend(sleb(i as i64 + 1)); } else { msg.push(0x7d); }
+        }
+        msg.extend([0x01, 0x00]);
+        msg.extend([0x01, 0x01, 0x00, 0x01, b'm']);
+        let mut env = TypeEnv::new();
+        for i in 1..=depth {
+            let inner: Type = if i < depth { TypeInner::Var(format!("E{}", i + 1)).into() } else { TypeInner::Nat.into() };
+            env.0.insert(format!("E{i}"), TypeInner::Opt(inner).into());
+        }
+        let expected: Type = TypeInner::Func(Function { modes: vec![], args: vec![], rets: vec![TypeInner::Var("E1".into()).into()] }).into();
+        std::panic::catch_unwind(move || candid::IDLArgs::from_bytes_with_types(&msg, &env, &[expected]).is_ok())
+    }).unwrap();
+    match h.join() {
+        Ok(Ok(true)) => "ok".to_string(),
+        Ok(Ok(false)) => "err".to_string(),
+        _ => "panic".to_string(),
     }
 }
